@@ -253,7 +253,7 @@ def shard(ctx):
     def body(case):
         (iso3, options), perts = case
         run_case(ctx, iso3, options, perts, "c12_%d_%d" % (ctx.shard, ctx.evaluations))
-    drive(ctx, st.tuples(case_strategy(), st.lists(perturbation(), min_size=6, max_size=6)), body, 60 if thorough else 3, shrink=False, tag="runs")
+    drive(ctx, st.tuples(case_strategy(), st.lists(perturbation(), min_size=6, max_size=6)), body, 60 if thorough else 8, shrink=False, tag="runs")
     # the extreme rows of the input table (smallest and largest populations: population-dependent branches and absolute tolerances sit
     # there) and the world run, each with common scale factors across the generator's range (0.01 .. 10: the largest rows cross 1e9 and 1e8 going down), on EVERY human round
     scales = [dict(kind="scale", month=0, amount=0.1, scale=f) for f in (0.01, 0.1, 0.5, 10.0)]   # the generator's range
